@@ -16,6 +16,30 @@ Theorem C06_accepted : forall c b rl env fn,
 Proof. exact xargs_batch_accepted. Qed.
 Print Assumptions C06_accepted.
 
+(* with -I the line is put into the initial arguments after the limiters were asked; the command line that results is put to
+   a fresh system limiter before it is run: one that passes is accepted by the kernel, one that does not ends the run with
+   "Argument too large" and status 1 without reaching exec *)
+Theorem C06_substituted_accepted : forall c lens rl env fn,
+  fits_system c lens = true -> c_sys c = sys_budget (kernel_limit rl) env -> lens <> [] ->
+  Forall (fun len => len + 1 <= MAX_ARG_STRLEN) (env_strings env) ->
+  fn + 1 <= 4096 + 2048 ->
+  kernel_accepts rl {| argv := lens; envp := env_strings env; fname := fn |}.
+Proof. exact substituted_accepted. Qed.
+Print Assumptions C06_substituted_accepted.
+
+Theorem C06_substituted_too_large : forall c st a b, c_replace c = true ->
+  fits_system c (c_subst c (alen a)) = false -> exec c st (a :: b) = inr (1, log st).
+Proof. intros c st a b Hr Hf. unfold exec, subst_fits. rewrite Hr, Hf. reflexivity. Qed.
+Print Assumptions C06_substituted_too_large.
+
+Theorem C06_substituted_run_fits : forall c st a b st', c_replace c = true ->
+  exec c st (a :: b) = inl st' -> fits_system c (c_subst c (alen a)) = true.
+Proof.
+  intros c st a b st' Hr. unfold exec, subst_fits. rewrite Hr. cbn [andb].
+  destruct (fits_system c (c_subst c (alen a))); [reflexivity|discriminate].
+Qed.
+Print Assumptions C06_substituted_run_fits.
+
 (* an argument beyond the per-argument limit is never handed to exec ... *)
 Theorem C06_oversize_never_admitted : forall c b a, within_limits c b -> In a b -> alen a + 1 <= MAX_ARG_STRLEN.
 Proof. exact oversize_never_admitted. Qed.
